@@ -131,7 +131,7 @@ func runC14e2e(line string, triggered bool) string {
 			cl.mu.Unlock()
 			refreshed0 := sp.counter("upstream.slots_refresh.success_total")
 			sc.send(v.bytes(), nil)
-			r, err := sc.recv(time.Duration(float64(4*time.Second) * loadFactor))
+			r, err := sc.recvPatient(4 * time.Second)
 			if triggered {
 				cl.mu.Lock()
 				redirected := cl.moved > mv0
@@ -151,7 +151,7 @@ func runC14e2e(line string, triggered bool) string {
 				}
 				cl.mu.Unlock()
 				sc.send(v.bytes(), nil)
-				r, err = sc.recv(time.Duration(float64(4*time.Second) * loadFactor))
+				r, err = sc.recvPatient(4 * time.Second)
 			}
 			if err != nil {
 				outs = append(outs, "TIMEOUT")
@@ -204,7 +204,7 @@ func c14Load(cl *simCluster, sp *simProxy) string {
 			for i := 0; i < 300; i++ {
 				k := []byte(fmt.Sprintf("load%d_%d_%d", c14LoadSeq, w, i))
 				c.send(bulkArr([]byte("set"), k, []byte("v")).bytes(), nil)
-				if r, err := c.recv(time.Duration(float64(4*time.Second) * loadFactor)); err != nil || r.t == '-' {
+				if r, err := c.recvPatient(4 * time.Second); err != nil || r.t == '-' {
 					atomic.AddInt32(&bad, 1)
 				}
 			}
